@@ -60,6 +60,10 @@ static void sink(const unsigned char *s, size_t n, void *arg) {
     int lascii = 1, lctlws = 0; for (size_t i = 0; i < ln; i++) { if (L[i] >= 0x80) lascii = 0; if (L[i] < 0x21 || L[i] == 0x7f) lctlws = 1; }
     int any20, out20 = rfc20_outside_quotes(L, ln, &any20);
     int host = dn && D[0] != '[', has_us = host && memchr(D, '_', dn) != NULL;
+    /* mode 6531 judges the IDNA-converted name: compatibility characters such as U+FE4D..U+FE4F, U+FF3F map to '_' */
+    int has_us_6531 = has_us;
+    if (host && !has_us && dn < 4000) { int hi = 0; for (size_t i = 0; i < dn; i++) if (D[i] >= 0x80) hi = 1;
+        if (hi) { char tmp[4001]; memcpy(tmp, D, dn); tmp[dn] = 0; char *a = NULL; if (idn2_to_ascii_8z(tmp, &a, IDN2_NONTRANSITIONAL) == IDN2_OK && a && strchr(a, '_')) has_us_6531 = 1; if (a) free(a); } }
     out_t o[8][4][2];
     for (int v = 0; v < 8; v++) for (int m = 0; m < 4; m++) for (int t = 0; t < 2; t++) o[v][m][t] = call(v, m, buf, n, t);
     for (int v = 1; v < 8; v++) for (int bit = 0; bit < 3; bit++) {
@@ -75,7 +79,7 @@ static void sink(const unsigned char *s, size_t n, void *arg) {
                     if (out20 == 0 && !same) viol("rfc20:char-inside-quotes-changed-decision", v, m, t, s, n, "all #^`{|}~ are quoted, but rc %d->%d", y.rc, x.rc);
                 } else if (x.rc >= 0) viol("rfc20:accepts-what-the-base-rejects", v, m, t, s, n, "rc %d->%d", y.rc, x.rc);
             } else if (bit == 2) {   /* + LABELS_ALLOW_UNDERSCORE */
-                if (!has_us) { if (!same) viol("underscore:leaks-outside-its-scope", v, m, t, s, n, "no '_' in a host-name domain, but adding UNDERSCORE to variant %d changed rc %d->%d flags %d->%d", b, y.rc, x.rc, y.f, x.f); else MC_ADD(C_SAME, 1); }
+                if (!(m == 3 ? has_us_6531 : has_us)) { if (!same) viol("underscore:leaks-outside-its-scope", v, m, t, s, n, "no '_' in a host-name domain, but adding UNDERSCORE to variant %d changed rc %d->%d flags %d->%d", b, y.rc, x.rc, y.f, x.f); else MC_ADD(C_SAME, 1); }
                 else if (!t && y.rc != -20 /* EEAV_DOMAIN_INVALID_CHAR */ && y.rc != -2 && y.rc != 0 && x.rc == y.rc) MC_ADD(C_SAME, 1);   /* rejected earlier for another reason (local part, length ...) */
                 else if (!t && dn < 4000) {
                     MC_ADD(C_DELTAUS, 1);
@@ -122,7 +126,7 @@ int main(int argc, char **argv) {
     C_ADDR = mc_counter("addresses"); C_DELTA20 = mc_counter("rfc20_delta_cases"); C_DELTAUS = mc_counter("underscore_delta_cases"); C_DELTA5322 = mc_counter("rfc5322_delta_cases"); C_SAME = mc_counter("must_be_identical_comparisons");
     if (corpus_load()) return 2;
     if (mc_replay) return do_replay();
-    static const int PH[] = { CP_LOCAL, CP_EMAIL, CP_DOMAIN, CP_CROSS, CP_BYTES, CP_TLD, CP_LITERAL, CP_LABELLEN, CP_ALTDOT, CP_LONGIDN, CP_MAXLIT };
+    static const int PH[] = { CP_LOCAL, CP_EMAIL, CP_DOMAIN, CP_CROSS, CP_BYTES, CP_TLD, CP_LITERAL, CP_LABELLEN, CP_ALTDOT, CP_LONGIDN, CP_MAXLIT, CP_SCALARS };
     for (unsigned i = 0; i < sizeof PH / sizeof PH[0]; i++) { CURPH = PH[i]; char nm[64]; snprintf(nm, sizeof nm, "%.40s (N=%d)", corpus_name(CURPH), corpus_N(CURPH)); mc_parallel(nm, corpus_shards(CURPH), phase_shard, NULL); }
     return mc_finish();
 }
